@@ -57,7 +57,19 @@ def valid_grid(ctx):
             ints.append((solver, c, "integer-spelling"))
     if quick:
         ints = [x for i, x in enumerate(ints) if i % len(SOLVERS) == (ctx.seed + i // 5) % len(SOLVERS)] + [x for x in ints if x[0] == "pvi" and "epsilon" in x[1] and isinstance(x[1]["epsilon"], int)][:2]
-    return out + ints
+    # every SOLVER-SPECIFIC parameter at a non-default value (a route that reads a parameter from the wrong place falls back to the
+    # class default): always in the grid.  Small batches so that the sweep order of the semi-asynchronous solver matters
+    spec = [("savi", {"shuffle_states": True, "random_seed": 7, "max_batch_size": 2}), ("savi", {"shuffle_states": True, "random_seed": 0, "max_batch_size": 3}),
+            ("savi", {"convergence_test": "max_diff", "max_batch_size": 2}), ("vi", {"convergence_test": "max_diff"}),
+            ("pvi", {"period": 3, "clear_value_history_on_convergence": False}), ("pvi", {"period": 1}),
+            ("pi", {"max_eval_iter": 2, "reset_values_for_each_policy_eval": True, "convergence_test": "max_diff"}), ("pi", {"max_eval_iter": 1})]
+    specific = []
+    for solver, extra in spec:
+        c = base_cfg(solver)
+        c.update(extra)
+        c["epsilon"] = 2.0 ** -30      # no early stop: the routes are compared after the same number of sweeps
+        specific.append((solver, c, "solver-specific"))
+    return out + ints + specific
 
 
 def invalid_grid(ctx):
